@@ -723,15 +723,32 @@ func runCheck(prop string, cfg *propCfg, tier string, seed uint64, runsOverride 
 	searchS := time.Since(start).Seconds() - buildS
 
 	// determinism sample: re-execute some runs in a second process with another GOMAXPROCS
-	if code := determinismSample(b, prop, tier, seed, all); code != 0 {
+	code, hist := determinismSample(b, prop, tier, seed, all)
+	if code != 0 {
 		return code
 	}
-	return aggregate(b, prop, cfg, tier, seed, all, start, buildS, searchS)
+	histLines := reportHistory(b, prop, tier, seed, hist)
+	rc := aggregate(b, prop, cfg, tier, seed, all, start, buildS, searchS)
+	for _, l := range histLines {
+		fmt.Println(l)
+		rc = 1
+	}
+	return rc
 }
 
-func determinismSample(b *build, prop, tier string, seed uint64, all []Result) int {
+// historyProps: properties whose very subject is that a run does not depend on what the process did before. For
+// them, "the same run index behaves differently in a warm worker than in a fresh process" IS the violation, provided
+// two fresh processes agree with each other (otherwise it is harness nondeterminism).
+var historyProps = map[string]bool{"C04": true, "C07": true}
+
+type histViolation struct {
+	Idx, Lo, Stride int
+	Warm, Cold      uint64
+}
+
+func determinismSample(b *build, prop, tier string, seed uint64, all []Result) (int, []histViolation) {
 	if len(all) == 0 {
-		return 0
+		return 0, nil
 	}
 	n := 16
 	if len(all) < n {
@@ -743,8 +760,10 @@ func determinismSample(b *build, prop, tier string, seed uint64, all []Result) i
 		byIdx[r.Idx] = r
 	}
 	var mism []string
+	var hist []histViolation
 	var wg sync.WaitGroup
 	var mu sync.Mutex
+	W := nWorkers()
 	for i := 0; i < n; i++ {
 		idx := all[i*step].Idx
 		wg.Add(1)
@@ -761,6 +780,15 @@ func determinismSample(b *build, prop, tier string, seed uint64, all []Result) i
 			// race reports are emitted once per process by the detector: they are attributed to the first run that
 			// exhibits them and are therefore not part of the per-run determinism comparison
 			if res[0].Hash != byIdx[idx].Hash || nonRace(res[0].Viols) != nonRace(byIdx[idx].Viols) {
+				if historyProps[prop] {
+					mu.Unlock()
+					res2, err2 := b.runWorker(sp, 0, 10*time.Minute)
+					mu.Lock()
+					if err2 == nil && len(res2) == 1 && res2[0].Hash == res[0].Hash {
+						hist = append(hist, histViolation{Idx: idx, Lo: idx % W, Stride: W, Warm: byIdx[idx].Hash, Cold: res[0].Hash})
+						return
+					}
+				}
 				mism = append(mism, fmt.Sprintf("idx %d: history hash %x vs %x; violations %v vs %v", idx, res[0].Hash, byIdx[idx].Hash, sigs(res[0].Viols), sigs(byIdx[idx].Viols)))
 			}
 		}(idx, i)
@@ -768,9 +796,86 @@ func determinismSample(b *build, prop, tier string, seed uint64, all []Result) i
 	wg.Wait()
 	if len(mism) > 0 {
 		fmt.Fprintf(os.Stderr, "vcheck: harness nondeterminism (not a verdict):\n%s\n", strings.Join(mism, "\n"))
-		return 2
+		return 2, nil
 	}
-	return 0
+	return 0, hist
+}
+
+type rangeReplay struct {
+	Property string `json:"property"`
+	Kind     string `json:"kind"` // "history-range"
+	Rule     string `json:"rule"`
+	Sig      string `json:"sig"`
+	Msg      string `json:"msg"`
+	Seed     uint64 `json:"verif_seed"`
+	Tier     string `json:"tier"`
+	Lo       int    `json:"lo"`
+	Stride   int    `json:"stride"`
+	Idx      int    `json:"run_index"`
+	TreeHash string `json:"tree_hash"`
+}
+
+// historyCheck: run indices lo, lo+stride, ..., idx in ONE process (warm) and idx alone in two fresh ones.
+func historyCheck(b *build, prop, tier string, seed uint64, lo, stride, idx int) (violated bool, msg string, err error) {
+	warm, err := b.runWorker(Spec{Property: prop, Seed: seed, Tier: tier, Lo: lo, Hi: idx + 1, Stride: stride}, 0, 60*time.Minute)
+	if err != nil || len(warm) == 0 || warm[len(warm)-1].Idx != idx {
+		return false, "", fmt.Errorf("warm range failed: %v", err)
+	}
+	sp := Spec{Property: prop, Seed: seed, Tier: tier, Lo: idx, Hi: idx + 1, Stride: 1}
+	c1, err1 := b.runWorker(sp, 1, 10*time.Minute)
+	c2, err2 := b.runWorker(sp, 16, 10*time.Minute)
+	if err1 != nil || err2 != nil || len(c1) != 1 || len(c2) != 1 {
+		return false, "", fmt.Errorf("cold reruns failed: %v %v", err1, err2)
+	}
+	if c1[0].Hash != c2[0].Hash {
+		return false, "", fmt.Errorf("two fresh processes disagree (%x vs %x): harness nondeterminism", c1[0].Hash, c2[0].Hash)
+	}
+	w := warm[len(warm)-1].Hash
+	if w != c1[0].Hash {
+		return true, fmt.Sprintf("run %d behaves differently after runs %d,%d,... in the same process (history hash %x) than in a fresh process (%x, confirmed by a second fresh process): the test cases / values / minimized result depend on what the process did before", idx, lo, lo+stride, w, c1[0].Hash), nil
+	}
+	return false, "", nil
+}
+
+// warmViolation re-runs the index range that preceded idx in its worker, in one process, and checks that the same
+// violation shows up at idx; the replay file then describes that range.
+func warmViolation(b *build, prop, tier string, seed uint64, v Violation, idx int) (string, bool) {
+	W := nWorkers()
+	lo := idx % W
+	res, err := b.runWorker(Spec{Property: prop, Seed: seed, Tier: tier, Lo: lo, Hi: idx + 1, Stride: W}, 0, 60*time.Minute)
+	if err != nil || len(res) == 0 || res[len(res)-1].Idx != idx || !hasViol(res[len(res)-1], v.Rule, v.Sig) {
+		return "", false
+	}
+	rf := rangeReplay{Property: prop, Kind: "warm-violation", Rule: v.Rule, Sig: v.Sig, Msg: v.Msg + " (only after the runs that preceded it in the same process: behaviour depends on process history)", Seed: seed, Tier: tier, Lo: lo, Stride: W, Idx: idx, TreeHash: b.treeHash}
+	_ = os.MkdirAll(outDir("replays"), 0o755)
+	path := filepath.Join(outDir("replays"), fmt.Sprintf("%s-%s-warm-seed%d-run%d.json", prop, sanitize(v.Rule+"-"+v.Sig), seed, idx))
+	jb, _ := json.MarshalIndent(rf, "", " ")
+	_ = os.WriteFile(path, jb, 0o644)
+	return path, true
+}
+
+func reportHistory(b *build, prop, tier string, seed uint64, hist []histViolation) []string {
+	if len(hist) == 0 {
+		return nil
+	}
+	h := hist[0]
+	ok, msg, err := historyCheck(b, prop, tier, seed, h.Lo, h.Stride, h.Idx)
+	if err != nil || !ok {
+		fmt.Fprintf(os.Stderr, "vcheck: history dependence of run %d did not reproduce (%v): harness nondeterminism (not a verdict)\n", h.Idx, err)
+		os.Exit(2)
+	}
+	rule, sig := prop+".history", "process-history-dependent"
+	if f := knownFor(loadFindings(), prop, Violation{Rule: rule, Sig: sig}); f != nil {
+		fmt.Printf("KNOWN-FINDING: property=%s sig=%s/%s %s\n", prop, rule, sig, f.Text)
+		return nil
+	}
+	rf := rangeReplay{Property: prop, Kind: "history-range", Rule: rule, Sig: sig, Msg: msg, Seed: seed, Tier: tier, Lo: h.Lo, Stride: h.Stride, Idx: h.Idx, TreeHash: b.treeHash}
+	_ = os.MkdirAll(outDir("replays"), 0o755)
+	path := filepath.Join(outDir("replays"), fmt.Sprintf("%s-history-seed%d-run%d.json", prop, seed, h.Idx))
+	jb, _ := json.MarshalIndent(rf, "", " ")
+	_ = os.WriteFile(path, jb, 0o644)
+	fmt.Printf("violation %s/%s in %d sampled runs; first: %s\n", rule, sig, len(hist), msg)
+	return []string{fmt.Sprintf("VIOLATION property=%s replay=%s", prop, path)}
 }
 
 func sigs(vs []Violation) []string {
@@ -872,6 +977,11 @@ func aggregate(b *build, prop string, cfg *propCfg, tier string, seed uint64, al
 			minBudgetExecs = 1 // overall minimisation budget used up: report the remaining ones unminimised
 		}
 		path, ok := minimiseAndWrite(b, prop, tier, seed, first.v, first.r)
+		if !ok && historyProps[prop] {
+			// not reproducible from a cold start: for these properties dependence on what the process did before is
+			// itself the subject; reproduce it in its warm context (the indices this worker ran before it)
+			path, ok = warmViolation(b, prop, tier, seed, first.v, first.r.Idx)
+		}
 		if !ok {
 			fmt.Fprintf(os.Stderr, "vcheck: violation %s of run %d did not reproduce in a fresh process: harness nondeterminism (not a verdict)\n", k, first.r.Idx)
 			return 2
@@ -1014,6 +1124,50 @@ func doReplay(path string) int {
 	jb, err := os.ReadFile(path)
 	if err != nil {
 		die2("%v", err)
+	}
+	var rr rangeReplay
+	if json.Unmarshal(jb, &rr) == nil && rr.Kind == "warm-violation" {
+		cfg := props[rr.Property]
+		if cfg == nil {
+			die2("unknown property %q", rr.Property)
+		}
+		b := doBuild(cfg, rr.Property)
+		defer b.cleanup()
+		res, err := b.runWorker(Spec{Property: rr.Property, Seed: rr.Seed, Tier: rr.Tier, Lo: rr.Lo, Hi: rr.Idx + 1, Stride: rr.Stride}, 0, 60*time.Minute)
+		if err != nil || len(res) == 0 {
+			die2("warm replay: %v", err)
+		}
+		last := res[len(res)-1]
+		for _, v := range last.Viols {
+			fmt.Printf("  run %d rule %s sig %s: %s\n", last.Idx, v.Rule, v.Sig, oneLine(v.Msg))
+		}
+		if last.Idx == rr.Idx && hasViol(last, rr.Rule, rr.Sig) {
+			fmt.Printf("VIOLATION property=%s replay=%s\n", rr.Property, path)
+			b.cleanup()
+			return 1
+		}
+		fmt.Printf("replay of %s: violation %s/%s NOT reproduced on this tree\n", path, rr.Rule, rr.Sig)
+		return 0
+	}
+	if json.Unmarshal(jb, &rr) == nil && rr.Kind == "history-range" {
+		cfg := props[rr.Property]
+		if cfg == nil {
+			die2("unknown property %q", rr.Property)
+		}
+		b := doBuild(cfg, rr.Property)
+		defer b.cleanup()
+		ok, msg, err := historyCheck(b, rr.Property, rr.Tier, rr.Seed, rr.Lo, rr.Stride, rr.Idx)
+		if err != nil {
+			die2("history replay: %v", err)
+		}
+		if ok {
+			fmt.Println(msg)
+			fmt.Printf("VIOLATION property=%s replay=%s\n", rr.Property, path)
+			b.cleanup()
+			return 1
+		}
+		fmt.Printf("replay of %s: history dependence NOT reproduced on this tree\n", path)
+		return 0
 	}
 	var rf replayFile
 	if err := json.Unmarshal(jb, &rf); err != nil {
